@@ -37,7 +37,14 @@ fn unhex(s: &str) -> Vec<u8> {
 }
 
 /// lib-compress <in> <out> <cfg> <hash_len> <none|brotli> <level> <buffers> <md hex:hex,..|-> <read size, 0 = whole>
-pub async fn lib_compress(args: &[String]) {
+pub async fn lib_compress(all: &[String]) {
+    // several jobs of nine arguments each are carried out one after the other in this process
+    for args in all.chunks(9) {
+        lib_compress_one(args).await;
+    }
+}
+
+async fn lib_compress_one(args: &[String]) {
     let src = std::fs::read(&args[0]).unwrap();
     let mut metadata = BTreeMap::new();
     if args[7] != "-" {
